@@ -909,6 +909,17 @@ func init() {
 		for _, d := range append(append([]int64{}, secs...), i64Bounds...) {
 			durEncode(d)
 		}
+		// whole seconds across the magnitudes at which float32/float64 arithmetic starts to round (2^24, 2^31, 2^53/1e9,
+		// near the int64 limit) x sub-second parts next to the second boundary, both signs
+		for _, sec := range []int64{1, 59, 1 << 10, 1<<24 - 1, 1 << 24, 1<<24 + 1, 1 << 27, 1<<31 - 1, 1 << 31, 1 << 32, 9007199, 9007200, 1 << 33, maxS - 1, maxS} {
+			for _, ns := range []int64{0, 1, 2, 499999999, 500000000, 500000001, 999999000, 999999050, 999999998, 999999999} {
+				if sec == maxS && ns > 854775807 {
+					continue
+				}
+				durEncode(sec*1000000000 + ns)
+				durEncode(-(sec*1000000000 + ns))
+			}
+		}
 		for _, s := range []int64{0, 1, -1, -62135596800, -62135596799, 253402300799, 1 << 31, -(1 << 31), 1700000000} {
 			for _, ns := range []int64{0, 1, 999999999, 500000000} {
 				tsEncode(s, ns)
@@ -918,6 +929,7 @@ func init() {
 			durDecode(int64(r.u64())>>uint(r.intn(40)), int32(r.u64()))
 			durDecode(secs[r.intn(len(secs))]+int64(r.intn(5))-2, int32(r.u64()))
 			durEncode(int64(r.u64()) >> uint(r.intn(50)))
+			durEncode((int64(r.u64()>>uint(1+r.intn(40)))/1000000000)*1000000000 + []int64{999999999, 999999998, 1, 500000000}[r.intn(4)])
 			tsEncode(int64(r.u64()%(253402300799+62135596800))-62135596800, int64(r.intn(1000000000)))
 		}
 		return nil
